@@ -260,7 +260,10 @@ def step (s : St) : Ev → Option St
       -- task already handed to the nursery begins and is cancelled at its first checkpoint
       -- … and a thread payload whose thread was already created may begin after the run call has
       -- ended (threads are never awaited: they may outlive the run)
-      if s.pay p = .submitted ∧ (s.phase = .up ∨ (s.fl p = .thr ∧ s.phase.isEnded = true)) ∧ s.tidOK (s.fl p) t then
+      -- (after a run that was stopped cleanly the old ThreadRunner is still around: a thread payload
+      -- adopted then - `queued` as far as a later run is concerned - is started by it right away)
+      if (s.pay p = .submitted ∧ (s.phase = .up ∨ (s.fl p = .thr ∧ s.phase.isEnded = true))
+          ∨ (s.pay p = .queued ∧ s.fl p = .thr ∧ s.phase.isEnded = true)) ∧ s.tidOK (s.fl p) t then
         some { (s.setFlavTid (s.fl p) t) with pay := upd s.pay p .running, starts := upd s.starts p (s.starts p + 1),
                                                tid := upd s.tid p (some t) }
       else none
